@@ -55,7 +55,11 @@ def conclude(pid, tier, seed, obls, infos, undecided_reasons, wall, write_eviden
                      "c10_curve25519_fp": "c10_c25519_fp", "c16_zkir_routing": "c16_zkir", "c12_chunks_v": "c12_chunks", "c06_foreign_preconditions": "c06_foreign", "c16_vk_read": "c16_vk", "c12_msm_parallel_v": "c12_msm"}
     for ob in obls:
         if _match_known(ob, kf):
-            continue      # a recorded finding: no new search for a failing input (the record names one)
+            # a recorded finding: no new search for a failing input (the record names one); a ledger obligation that
+            # the witness had promoted when it was recorded counts as failed again
+            if ob.status == UNDECIDED and re.search(r"unregistered call site", ob.detail or ""):
+                ob.status = FAILED
+            continue
         if ob.backend in ("verus", "polyvc") and getattr(ob, "unit_name", None) in WITNESS_MODES and not getattr(ob, "replay", None):
             resource = ob.status == UNDECIDED and re.search(r"rlimit|Resource limit|timed out|unregistered call site", ob.detail or "")
             if ob.status == FAILED or resource:
